@@ -7,6 +7,37 @@ VERIF = os.path.dirname(os.path.abspath(__file__))
 
 # id -> (level category, level text, level note, technique, design ref)
 CLAIMED = {
+    "C04": ("fault_enumeration",
+            "AtomicFile.tla models the temp-write-fsync-rename protocol with Kill, PowerLoss and IoError at every step (and two negative-control "
+            "writers for the self-test); TLC checks AllOrNothing on it. A child process performs one real mutating call of each kind under strace: "
+            "its system calls on the state directory are validated by TLC as a behaviour of AtomicFile (separate file in the same directory, fully "
+            "written, chmod, fsync, close, then rename; live file never opened for writing), and every one of those calls is in turn made to fail "
+            "(injected errno) or to be the instant of a SIGKILL; afterwards the real db.Open / the running child must show exactly the pre- or "
+            "post-call state the model allows, no temp left after an error, and later calls must work. In-process save failures (with partial "
+            "writes) and the rollback of the served state are covered by the save-fault edges of the Vault graph.",
+            "SIGKILL leaves the page cache intact; power loss is decided on the model given the validated call order. Rename durability without a "
+            "directory fsync is an explicit file-system assumption. Quick tier: create / new version / delete; thorough: all six operation kinds.",
+            "TLA+ protocol model + TLC validation of strace-recorded system calls + strace fault/kill injection at every call",
+            "DESIGN.md §4 C04"),
+    "C05": ("fault_enumeration",
+            "Envelope.tla (symbolic AEAD: wrapped DEK under the KEK, sealed database under the DEK, both with associated data) is checked by TLC "
+            "for TamperEvident under flips, truncation, single-field splices, cross-field moves and wrong KEK; each tamper class is instantiated "
+            "exhaustively on real files written with a real AES-256-GCM KEK (every bit flip, every truncation length, splices between databases of "
+            "the same and of another KEK), oracle: error or exactly the original contents. Random histories with high-entropy marker names/values "
+            "are scanned after every call (all files, raw/base64/hex/JSON forms, modes 0600) and validated by TLC, whose Vault!KekOnlyAtOpen fixes "
+            "that the KEK is used exactly once per open/create and never by reads or writes.",
+            "Scanning is a byte-level monitor; the specification fixes where and when it applies. Whole-file rollback is out of scope by the property.",
+            "TLA+ envelope model + exhaustive tamper enumeration on real files + marker scanning in TLC-validated histories",
+            "DESIGN.md §4 C05"),
+    "C08": ("model_checking",
+            "Http.tla puts the gate (method, content type, browser header, identity incl. both capability names and malformed grants, body) in "
+            "front of Vault with the exact status table; TLC checks GateNoEffect / StatusExact / PrincipalExact over the full request-class product "
+            "in every store state. Every emitted row is sent as a concrete request (several representatives per class) to the real mux: status, "
+            "body (no secret bytes unless 200, empty on 304), audit sink and store untouched when refused, principal recorded and rules applied.",
+            "WhoIs never returns nil Node/UserProfile; trailing garbage after a valid JSON body is outside the listed classes. Quick tier rotates the "
+            "non-conforming representatives with the seed.",
+            "TLC exhaustive request-class graph of Http.tla replayed on the real HTTP mux",
+            "DESIGN.md §4 C08"),
     "C01": ("model_checking",
             "TLC enumerates the complete labelled transition graph of spec/Vault.tla for a family of 38 callers (all-access, empty, every "
             "single action x pattern rule, split rules, a multi-rule set) x every operation and argument x existing/absent/reserved/empty names "
